@@ -7,7 +7,8 @@ Montgomery batch inversion + the same driver) and the two renderings of src/bin/
 No Mathlib. `%` on BigInt is `Int.tmod`, `/` is `Int.tdiv`, `zmod`/`inv` are `NTV.zmod`/`NTV.inv`.
 Every `u64` expression of the Rust is written with `addU64`/`mulU64` (dev profile: panic on overflow,
 release: wrap), `saturating_sub` is `Nat` subtraction.  Floating point is not modelled: `select_b(n)`
-for n > 1000 is an argument (`b`) supplied by the harness, and `(b1 as f64).sqrt() as usize` is the
+for n > 1000 is supplied by the harness (the argument `b` for the input itself and, for the batched
+driver which calls `select_b(&now)` per work item, the table `btab` for the other items), and `(b1 as f64).sqrt() as usize` is the
 integer square root (exact for b1 < 2^52, which covers every b1 that select_b produces for inputs
 below ~2^1000; the harness never exceeds that). -/
 namespace NTV.Ecm
@@ -472,8 +473,11 @@ structure DState where
 def selectBExact (n : Int) : Option Nat := if n ≤ 1000 then some 4 else none
 
 /-- the `while let Some((now, multiplicity)) = stack.pop()` loop; `Vec::push/pop` act on the end of
-the list. `ecmFn now b1 b2 stream` is `ecm` or `ecmParallel`. -/
-def driverLoop (ecmFn : Int → Nat → Nat → Stream → EcmRes) (prof : Profile) (b : Nat) :
+the list. `ecmFn now b1 b2 stream` is `ecm` or `ecmParallel`. `bsel now` is the bound used for the work
+item `now`: ecm.rs computes `select_b(x)` once before the loop (`bsel` constant), ecm_parallel.rs computes
+`select_b(&now)` immediately before the `ecm` call (so it is consulted only when ECM is really called);
+`none` = the harness supplied no value of `select_b` for that item: the run is dropped as inconclusive. -/
+def driverLoop (ecmFn : Int → Nat → Nat → Stream → EcmRes) (prof : Profile) (bsel : Int → Option Nat) :
     Nat → DState → FacRes
   | 0, st => if st.stack.isEmpty then .ok (sortPairs st.map) st.count st.stream else .inconclusive "fuel"
   | f + 1, st =>
@@ -481,14 +485,14 @@ def driverLoop (ecmFn : Int → Nat → Nat → Stream → EcmRes) (prof : Profi
     | none => .ok (sortPairs st.map) st.count st.stream
     | some (now, mult) =>
       let stack := st.stack.dropLast
-      if now ≤ 1 then driverLoop ecmFn prof b f { st with stack := stack }
+      if now ≤ 1 then driverLoop ecmFn prof bsel f { st with stack := stack }
       else
         match isPrimeS now st.stream with
         | none => .inconclusive "stream"
         | some (true, s) =>
           match mapAdd prof st.map now mult with
           | .error k => .panic k
-          | .ok m => driverLoop ecmFn prof b f { st with stack := stack, map := m, stream := s }
+          | .ok m => driverLoop ecmFn prof bsel f { st with stack := stack, map := m, stream := s }
         | some (false, s) =>
           match NTV.Elem.perfectPower now with
           | none => .panic "other"     -- unreachable: now > 1
@@ -496,8 +500,11 @@ def driverLoop (ecmFn : Int → Nat → Nat → Stream → EcmRes) (prof : Profi
             if k ≥ 2 then
               match mulU64 prof mult k with
               | .error e => .panic e
-              | .ok m => driverLoop ecmFn prof b f { st with stack := stack ++ [(base, m)], stream := s }
+              | .ok m => driverLoop ecmFn prof bsel f { st with stack := stack ++ [(base, m)], stream := s }
             else
+              match bsel now with
+              | none => .inconclusive "no-bound-for-item"   -- the harness did not supply select_b(now)
+              | some b =>
               match mulU64 prof 100 b with
               | .error e => .panic e
               | .ok b2 =>
@@ -509,25 +516,31 @@ def driverLoop (ecmFn : Int → Nat → Nat → Stream → EcmRes) (prof : Profi
                   | .error e => .panic e
                   | .ok count =>
                     if fac == 1 then
-                      driverLoop ecmFn prof b f { stack := stack ++ [(now, mult)], map := st.map, count := count, stream := s }
+                      driverLoop ecmFn prof bsel f { stack := stack ++ [(now, mult)], map := st.map, count := count, stream := s }
                     else
                       let other := Int.tdiv now fac
-                      driverLoop ecmFn prof b f
+                      driverLoop ecmFn prof bsel f
                         { stack := stack ++ [(fac, mult), (other, mult)], map := st.map, count := count, stream := s }
 
-/-- `factorize_verbose(x, _)` with `b = select_b(x)` supplied; x ≤ 0 is the documented `panic!` -/
-def factorizeWith (ecmFn : Int → Nat → Nat → Stream → EcmRes) (x : Int) (b : Nat) (stream : Stream)
+/-- `factorize_verbose(x, _)` with the bound selection `bsel` supplied; x ≤ 0 is the documented `panic!` -/
+def factorizeWith (ecmFn : Int → Nat → Nat → Stream → EcmRes) (x : Int) (bsel : Int → Option Nat) (stream : Stream)
     (fuel : Nat) (prof : Profile) : FacRes :=
   if x ≤ 0 then .panic "other"
-  else driverLoop ecmFn prof b fuel { stack := [(x, 1)], map := [], count := 0, stream := stream }
+  else driverLoop ecmFn prof bsel fuel { stack := [(x, 1)], map := [], count := 0, stream := stream }
 
-/-- `ecm::factorize_verbose` -/
+/-- `ecm::factorize_verbose`: one `b = select_b(x)` for the whole run -/
 def factorizeSeq (x : Int) (b : Nat) (stream : Stream) (fuel : Nat) (prof : Profile) : FacRes :=
-  factorizeWith (fun now b1 b2 s => ecm now b1 b2 s (s.length + 1) prof) x b stream fuel prof
+  factorizeWith (fun now b1 b2 s => ecm now b1 b2 s (s.length + 1) prof) x (fun _ => some b) stream fuel prof
 
-/-- `ecm_parallel::factorize_verbose` -/
-def factorizePar (x : Int) (b : Nat) (stream : Stream) (fuel : Nat) (prof : Profile) : FacRes :=
-  factorizeWith (fun now b1 b2 s => ecmParallel now b1 b2 s (s.length + 1) prof) x b stream fuel prof
+/-- the bound of `ecm_parallel::factorize_verbose` for the work item `now`: `select_b(&now)`, exact for
+now ≤ 1000, otherwise `b` (= select_b(x)) for the input itself and the table `btab` (d ↦ select_b(d))
+for every other item -/
+def parBsel (x : Int) (b : Nat) (btab : List (Int × Nat)) (now : Int) : Option Nat :=
+  if now ≤ 1000 then some 4 else if now = x then some b else btab.lookup now
+
+/-- `ecm_parallel::factorize_verbose`: `select_b(&now)` per work item -/
+def factorizePar (x : Int) (b : Nat) (btab : List (Int × Nat)) (stream : Stream) (fuel : Nat) (prof : Profile) : FacRes :=
+  factorizeWith (fun now b1 b2 s => ecmParallel now b1 b2 s (s.length + 1) prof) x (parBsel x b btab) stream fuel prof
 
 /-! ## rfactor's `present` (stdout, without the timing fields of `--verbose`) -/
 
